@@ -220,12 +220,13 @@ instance (ev : EventSpec d) : Decidable (sharesSumOK ev) := by unfold sharesSumO
 
 /-- the numeric rejections of the event constructors: non-positive characteristic time, occurrence or
     duration; an impact with a negative entry or without any positive entry; a capacity loss above
-    100 %; rebuilding shares that do not sum to 1 -/
+    100 %; rebuilding shares that do not sum to 1 or one of which is negative; a non-positive rebuilding factor -/
 def eventRejected (ev : EventSpec d) : Prop :=
   ev.tau = 0 ∨ ev.occ = 0 ∨ ev.dur = 0 ∨
   (∃ r s, ev.impact (r, s) < 0) ∨ (∀ r s, ev.impact (r, s) = 0) ∨
   (ev.kind = .arbitrary ∧ ∃ r s, 1 < ev.impact (r, s)) ∨
-  (ev.kind = .rebuild ∧ ¬ sharesSumOK ev)
+  (ev.kind = .rebuild ∧ ¬ sharesSumOK ev) ∨
+  (ev.kind = .rebuild ∧ ((∃ s, ev.shares s < 0) ∨ ev.factor ≤ 0))
 
 instance (ev : EventSpec d) : Decidable (eventRejected ev) := by unfold eventRejected; infer_instance
 
